@@ -139,10 +139,13 @@ def run_pipe(tier, seed, spec, col):
                                    contig_len=700, snv_range=(0, 4), hostile=0.1)
         thr = float(rng.choice([0.2, 0.2, 0.6, 0.95]))
         args = ["assemble", "--bam"] + ds.bams + ["--targets", ds.bed, "--variants", ds.vcf, "--reference", ds.fasta, "--ploidy", str(ploidy),
-                                                  "--mcmc-steps", "150", "--mcmc-burn", "75", "--mcmc-seed", str(int(rng.integers(1, 1000))),
+                                                  "--mcmc-steps", "150", "--mcmc-burn", "75", "--mcmc-seed", str(int(rng.integers(0, 1000)) if rng.random() < 0.8 else 0),
                                                   "--haplotype-posterior-threshold", str(thr)]
         if rng.random() < 0.5:
             args += ["--report", "AFP"]
+        F = float(rng.choice([0.0, 0.0, 0.1, 0.4]))
+        if F:
+            args += ["--inbreeding", repr(F)]
         out, exc = cli.run_inproc(args)
         rep = {"dataset_seed": [seed, spec["shard"], dI], "assemble_args": args[1:]}
         if exc is not None:
@@ -166,7 +169,9 @@ def run_pipe(tier, seed, spec, col):
         for prog in ("call", "call-exact"):
             a2 = [prog, "--haplotypes", hv, "--reference", ds.fasta, "--bam"] + ds.bams + ["--ploidy", str(ploidy)]
             if prog == "call":
-                a2 += ["--mcmc-steps", "150", "--mcmc-burn", "75"]
+                a2 += ["--mcmc-steps", "150", "--mcmc-burn", "75", "--mcmc-seed", str(int(rng.choice([0, 3, 42])))]
+            if F:
+                a2 += ["--inbreeding", repr(F)]
             out2, exc2 = cli.run_inproc(a2)
             col.count("pipelines_run")
             case = dict(rep, program=prog)
